@@ -404,23 +404,33 @@ impl Expression {
                         return Some(convert_cast(val, src_kind, dst_kind, context_width));
                     }
 
+                    // The result carries the signedness gather_context gives the
+                    // cast node: the target TYPE's for a type cast, unsigned for a
+                    // numeric width cast.  Later extensions read the Value's flag.
+                    let dst_signed = matches!(y.comptime().value, ValueVariant::Type(_))
+                        && comptime.r#type.signed;
+
                     let cast_width = comptime.r#type.total_width()?;
                     let val_width = val.width();
-                    if val_width > cast_width {
+                    let val = if val_width > cast_width {
                         let mut val = val.clone();
                         val.trunc(cast_width);
-                        return Some(convert_cast(val, src_kind, dst_kind, context_width));
+                        val
                     } else if val_width < cast_width {
                         // SV's `N'(expr)` sign-extends a signed operand; widen by
                         // the source TYPE's signedness so comptime matches the
                         // emitted SV (the value flag can carry the init
                         // literal's signedness, e.g. `logic<8> = 200`).
                         let src_signed = x.comptime().r#type.signed;
-                        let val = val.expand(cast_width, src_signed).into_owned();
-                        return Some(convert_cast(val, src_kind, dst_kind, context_width));
+                        let mut val = val.clone();
+                        val.set_signed(src_signed);
+                        val.expand(cast_width, src_signed).into_owned()
                     } else {
-                        return Some(convert_cast(val, src_kind, dst_kind, context_width));
-                    }
+                        val
+                    };
+                    let mut val = convert_cast(val, src_kind, dst_kind, context_width);
+                    val.set_signed(dst_signed);
+                    return Some(val);
                 }
 
                 // Div/Rem and comparisons take signedness from their two
